@@ -1036,6 +1036,8 @@ class Evaluator:
                 return self.funcs[name](self, n)
             obj = self._maybe_obj(n.func.value)
             if obj is not None:
+                if n.func.attr not in obj.methods and ("." + n.func.attr) in self.funcs:
+                    return self.funcs["." + n.func.attr](self, n)       # a hook of the rule for this method name
                 if n.func.attr not in obj.methods:
                     if hasattr(obj, "abs_callmethod"):
                         args, kw = self._call_args(n)
